@@ -136,23 +136,24 @@ HeaderBytes(n, es) == SizeLine(n) \o <<NL>> \o DictText(es) \o <<NL>> \o T_END \
 
 \* ================================ reader =============================================
 \* ---- records.cpp read_sfile_header: a sliding window over fgetc ------------------------
-WinLen  == IF Scanner = "END3" THEN 3 ELSE 5
-Pattern == IF Scanner = "END3" THEN T_END ELSE <<NL>> \o T_END \o <<NL>>
-AfterMatch == IF Scanner = "END3" THEN 2 ELSE 1      \* "count += 2" (newline + blank line) / "count += 1"
+WinLen(sc)  == IF sc = "END3" THEN 3 ELSE 5
+Pattern(sc) == IF sc = "END3" THEN T_END ELSE <<NL>> \o T_END \o <<NL>>
+AfterMatch(sc) == IF sc = "END3" THEN 2 ELSE 1      \* "count += 2" (newline + blank line) / "count += 1"
 
-RECURSIVE ScanFrom(_, _, _)
-ScanFrom(file, pos, win) ==                    \* pos characters consumed so far
+RECURSIVE ScanFrom(_, _, _, _)
+ScanFrom(file, pos, win, sc) ==                \* pos characters consumed so far
     IF pos = Len(file) THEN [err |-> "eof_before_header_end", count |-> pos]
     ELSE LET w == Tail(win) \o <<file[pos + 1]>>
-         IN IF w = Pattern THEN [err |-> "none", count |-> pos + 1] ELSE ScanFrom(file, pos + 1, w)
+         IN IF w = Pattern(sc) THEN [err |-> "none", count |-> pos + 1] ELSE ScanFrom(file, pos + 1, w, sc)
 
 \* returns [err, text (the header string), offset (ftell after the fread)]
-ReadSfileHeader(file) ==
-    LET s == ScanFrom(file, 0, [i \in 1..WinLen |-> "nul"])
-        count == s.count + AfterMatch
+CppReadSfileHeaderS(file, sc) ==
+    LET s == ScanFrom(file, 0, [i \in 1..WinLen(sc) |-> "nul"], sc)
+        count == s.count + AfterMatch(sc)
     IN IF s.err # "none" THEN [err |-> s.err, text |-> <<>>, offset |-> 0]
        ELSE IF count > Len(file) THEN [err |-> "short_read", text |-> <<>>, offset |-> 0]
        ELSE [err |-> "none", text |-> SubSeq(file, 1, count), offset |-> count]
+CppReadSfileHeader(file) == CppReadSfileHeaderS(file, Scanner)
 
 \* ---- str.split(sep) for a one-character separator -----------------------------------------
 FirstIdx(s, c) == IF HasCh(s, c) THEN CHOOSE i \in DOMAIN s : s[i] = c /\ \A j \in 1..(i - 1) : s[j] # c ELSE 0
